@@ -178,8 +178,55 @@ let () =
             | Some p, Some e ->
               let (code, spb) = Frame.exec_frame (arch_of (int_of_string f.(1))) p e (zf 2) (zf 3) (q 4) (q 8) (q 12) (f.(16) <> "0")
                                   (zf 17) (zf 18) (zf 19) (zf 20) in
-              Printf.printf "E %s %s\n" (s code) (s spb)
+              (* round 6: the PROVED encodability predicate (FrameA64Proofs.a64_encodable) evaluated on the implementation's AArch64 lists:
+                 number of instructions it rejects - compared with the real Assembler's verdict by the check *)
+              let bad = if int_of_string f.(1) = 2 then List.length (List.filter (fun i -> not (Frame.a64_encodable i)) (p @ e)) else 0 in
+              Printf.printf "E %s %s enc %d\n" (s code) (s spb) bad
             | _ -> print_endline "E -1 0")
+         | _ -> print_endline "BAD")
+      | "K" :: _ ->
+        (* K arch dirty0 preserved0 hasfp csize localoff lsize | arg copies (instruction text of the IMPLEMENTATION)
+           -> K <1 accepted | 0 rejected | -1 a copy is outside the four shapes of FrameCopies.acopy> <number of copies>
+           the VERIFIED static checker FrameCopies.copies_ok_data (soundness: x86_roundtrip_with_copies) *)
+        (match String.split_on_char '|' line with
+         | [hd; asg] ->
+           let f = Array.of_list (List.filter (fun x -> x <> "") (String.split_on_char ' ' (String.trim hd))) in
+           let zf i = cz_of_string f.(i) in
+           (match parse_insts asg with
+            | Some l ->
+              let z0 = cz_of_int 0 and z4 = cz_of_int 4 in
+              let conv (i : Frame.instr) : Frame.acopy option =
+                match i with
+                | (Frame.Mmov, [Frame.OReg (g, sd, d); Frame.OReg (g2, sr, r)]) when g = z0 && g2 = z0 -> Some (Frame.CMovRR (sd, d, sr, r))
+                | (Frame.Mmov, [Frame.OReg (g, sz, d); Frame.OMem (b, off, m)]) when g = z0 && m = z0 -> Some (Frame.CLoad (sz, d, b, off))
+                | (Frame.Mmov, [Frame.OMem (b, off, m); Frame.OReg (g, sz, r)]) when g = z0 && m = z0 && b = z4 -> Some (Frame.CStore (off, sz, r))
+                | (Frame.Mxchg, [Frame.OReg (g, sd, d); Frame.OReg (g2, sr, r)]) when g = z0 && g2 = z0 -> Some (Frame.CXchg (sd, d, sr, r))
+                | _ -> None in
+              let z31 = cz_of_int 31 in
+              let conv64 (i : Frame.instr) : Frame.acopy64 option =
+                match i with
+                | (Frame.Mmov, [Frame.OReg (g, sd, d); Frame.OReg (g2, sr, r)]) when g = z0 && g2 = z0 -> Some (Frame.C64Mov (sd, d, sr, r))
+                | (Frame.Mldr, [Frame.OReg (g, sz, d); Frame.OMem (b, off, m)]) when g = z0 && m = z0 -> Some (Frame.C64Ldr (sz, d, b, off))
+                | (Frame.Mstr, [Frame.OReg (g, sz, r); Frame.OMem (b, off, m)]) when g = z0 && m = z0 && b = z31 -> Some (Frame.C64Str (off, sz, r))
+                | _ -> None in
+              if int_of_string f.(1) = 2 then begin
+                let cs = List.map conv64 l in
+                if List.exists (fun c -> c = None) cs then Printf.printf "K -1 %d\n" (List.length l)
+                else begin
+                  let cs = List.map (function Some c -> c | None -> assert false) cs in
+                  if List.map Frame.acopy64_instr cs <> l then Printf.printf "K -1 %d\n" (List.length l)
+                  else Printf.printf "K %d %d\n" (if Frame.copies64_ok_data (zf 2) (zf 3) (f.(4) <> "0") (zf 5) (zf 6) (zf 7) cs then 1 else 0) (List.length l)
+                end
+              end else
+              let cs = List.map conv l in
+              if List.exists (fun c -> c = None) cs then Printf.printf "K -1 %d\n" (List.length l)
+              else begin
+                let cs = List.map (function Some c -> c | None -> assert false) cs in
+                (* the typed copies denote exactly the implementation's instructions *)
+                if List.map Frame.acopy_instr cs <> l then Printf.printf "K -1 %d\n" (List.length l)
+                else Printf.printf "K %d %d\n" (if Frame.copies_ok_data (zf 2) (zf 3) (f.(4) <> "0") (zf 5) (zf 6) (zf 7) cs then 1 else 0) (List.length l)
+              end
+            | None -> print_endline "K -1 0")
          | _ -> print_endline "BAD")
       | "G" :: _ ->
         (* G arch sp0 ra d0..d3 p0..p3 s0..s3 hasfp csize localoff lsize cleanup nargs (sk sv dk dv)* | prolog | arg copies | epilog
